@@ -106,7 +106,7 @@ Lemma frame_may_change h o x :
 Proof.
   intros Hwf Hx Hnot.
   pose proof (wf_obj h x Hwf Hx) as Hwx.
-  destruct o as [nb lgs|deep r|r f|r b g|r f gt perm|r f gt newlegs|r f|r f|a b g|a b pa pb F];
+  destruct o as [nb lgs|deep r|r f|r b g|r f gt perm|r gt perm|r f gt newlegs|r f|r f|a b g|a b pa pb F];
     unfold may_change in Hnot; cbn [inplace_receiver writes_buffers] in Hnot.
   - (* ONew *)
     cbn [exec fst]. apply (denote_keeps h _ []); auto.
@@ -150,6 +150,12 @@ Proof.
     cbn [exec rebind fst].
     apply (denote_keeps h _ []); auto.
     + unfold set_obj. cbn [bufs tabs legs]. apply keeps_grow2.
+    + rewrite obj_set_other by exact Hxr. reflexivity.
+  - (* OMeta *)
+    assert (Hxr : x <> r) by (intros ->; apply Hnot; left; reflexivity).
+    cbn [exec fst].
+    apply (denote_keeps h _ []); auto.
+    + repeat split; intros i Hi; intros; cbn [bufs tabs legs set_obj]; try reflexivity. apply app_nth1, Hi.
     + rewrite obj_set_other by exact Hxr. reflexivity.
   - (* OProject *)
     assert (Hxr : x <> r) by (intros ->; apply Hnot; left; reflexivity).
@@ -197,7 +203,7 @@ Lemma legs_immutable h o i : i < length (legs h) ->
   nth i (legs (fst (exec h o))) dleg = nth i (legs h) dleg.
 Proof.
   intros Hi.
-  destruct o as [nb lgs|deep r|r f|r b g|r f gt perm|r f gt newlegs|r f|r f|a b g|a b pa pb F];
+  destruct o as [nb lgs|deep r|r f|r b g|r f gt perm|r gt perm|r f gt newlegs|r f|r f|a b g|a b pa pb F];
     try (cbn [exec deep_copy rebind fst legs add_obj set_obj]; reflexivity).
   - destruct deep; cbn [exec deep_copy fst legs add_obj]; reflexivity.
   - cbn [exec fst legs set_obj]. apply app_nth1, Hi.
